@@ -5,6 +5,7 @@ is made of, each with a non-vacuity `example`.
 -/
 import Nitime.Model.C01
 import Nitime.Lemmas.F64
+import Nitime.Lemmas.F64Bound
 
 namespace Nitime.C01.Props
 open Nitime Nitime.C01 Nitime.Generated
@@ -31,6 +32,20 @@ theorem toPs_flt_nearest_of_product (u : TimeUnit) (x : Rat) :
     |((toPs u (.flt x) : Int) : Rat) - F64.fmul x (factor u : Rat)| ≤ 1 / 2 := by
   simp only [toPs, toPsF, factor_exact_in_f64]
   exact F64.rint_near _
+
+/-- floats, full strength: the stored payload is within half a picosecond plus the binary64
+rounding (relative 2⁻⁵³) of the exact product `x · factor` -/
+theorem toPs_flt_near (u : TimeUnit) (x : Rat) :
+    |((toPs u (.flt x) : Int) : Rat) - x * (factor u : Rat)|
+      ≤ 1 / 2 + |x * (factor u : Rat)| * F64.pow2 (-53) := by
+  have h1 := toPs_flt_nearest_of_product u x
+  have h2 := F64.rne_near (x * (factor u : Rat))
+  have : ((toPs u (.flt x) : Int) : Rat) - x * (factor u : Rat)
+      = (((toPs u (.flt x) : Int) : Rat) - F64.fmul x (factor u : Rat))
+        + (F64.rne (x * (factor u : Rat)) - x * (factor u : Rat)) := by
+    simp only [F64.fmul]; ring
+  rw [this]
+  exact (abs_add_le _ _).trans (add_le_add h1 h2)
 
 /-- floats whose product with the factor is a representable whole number are stored exactly -/
 theorem toPs_flt_exact_of_whole (u : TimeUnit) (x : Rat) (k : Int)
